@@ -58,6 +58,9 @@ API
                                        sqrt(csqLowT(Tn)), hydro.vJ), so the case stays plain data
 ``branch_of(vw, vp, vm)``, ``speed_bucket(vw)``  labels derived from a returned matching
 
+``spec["allow_unfavoured"] = True`` (optional, used by C05 only) lifts the requirement p_b(Tn) > p_s(Tn), so that a
+nucleation temperature above the critical one can be described (the LTE solver's static sentinel).
+
 All randomness is Hypothesis'; ``build`` is a pure function of the spec.
 """
 from __future__ import annotations
@@ -382,7 +385,7 @@ def _verify(thermo, meta, lo, hi, n=25):
             if not (d1 > 0 and d2 > 0 and 0.0 < d1 / (T * d2) < 1.0):
                 raise ZooError(f"{meta['family']}: {ph}-T phase has w or c^2 out of range at T/Tn={T / Tn:.4g} "
                                f"(dp={d1:.4g}, ddp={d2:.4g})")
-    if not float(thermo.pLowT(Tn)) > float(thermo.pHighT(Tn)):
+    if not float(thermo.pLowT(Tn)) > float(thermo.pHighT(Tn)) and not meta.get("allow_unfavoured", False):
         raise ZooError(f"{meta['family']}: low-T phase is not favoured at Tn")
 
 
@@ -402,6 +405,9 @@ def build(spec):
     Tn = float(spec["Tn"])
     ranges = spec.get("ranges")
     meta = {"family": fam, "Tn": Tn, "spec_hash": spec_hash(spec)}
+    if spec.get("allow_unfavoured", False):
+        # C05 only: Tn above the critical temperature (static-sentinel cases); everything else is verified as usual
+        meta["allow_unfavoured"] = True
     if fam == "bag":
         th = C["bag"](spec["alN"], spec["psiN"], Tn, spec.get("g", 1.0), ranges)
         meta.update(const_cs=True, template_form=True, T_valid=(1e-3 * Tn, 1e3 * Tn))
